@@ -620,10 +620,6 @@ example : (SeqSys.run updateLeaseFixed {} exOps).handed =
 example : (SeqSys.run updateLeaseFixed {} exOps).Unique := C30_unique exOps (by decide)
 example : (SeqSys.run updateLeaseFixed {} exOps).Monotone := C30_monotone exOps (by decide)
 
-/-- the same script is *not* harmless for today's code: the hypothesis fails nowhere, the
-    refused transactions leave phantom leases behind -/
-example : RunOk updateLease {} exOps := by decide
-
 /-- a conflict-free run for the `today_no_conflict` theorems -/
 def exOpsOk : List SeqOp :=
   [.new 1 2 .ok, .new 2 3 .ok, .next 1 .ok, .next 2 .ok, .next 1 .ok, .next 1 .ok,
